@@ -17,8 +17,17 @@ def main():
     args = [a for a in sys.argv[1:] if not a.startswith("--")]
     opts = [a for a in sys.argv[1:] if a.startswith("--")]
     pid = args[0].upper()
-    patches = args[1:] or sorted(glob.glob(os.path.join(HERE, "mutants", pid, "*.json")) + glob.glob(os.path.join(HERE, "mutants", pid, "*.patch"))
-                                 + glob.glob(os.path.join(HERE, "seeded", pid + "*", "patch.diff")))
+    def decided_by(patch):
+        # a seeded change produced for one property may fall under another property's check (meta.json "decided_by")
+        import json
+
+        try:
+            return json.load(open(os.path.join(os.path.dirname(patch), "meta.json"))).get("decided_by", os.path.basename(os.path.dirname(patch)).split("-")[0])
+        except (OSError, ValueError):
+            return os.path.basename(os.path.dirname(patch)).split("-")[0]
+
+    seeded = [q for q in glob.glob(os.path.join(HERE, "seeded", "*", "patch.diff")) if decided_by(q) == pid]
+    patches = args[1:] or sorted(glob.glob(os.path.join(HERE, "mutants", pid, "*.json")) + glob.glob(os.path.join(HERE, "mutants", pid, "*.patch")) + seeded)
     extra = []
     for o in opts:
         k, _, v = o.partition("=")
